@@ -254,6 +254,22 @@ class ProgGen:
             self.w("R.reg(wrapped)")
             self.plain.append(("wrapped", calls))
             self.w("")
+        # a plain closure decorator WITHOUT functools.wraps: the global name is bound to the wrapper, the original is
+        # reachable only through the wrapper frame's free variable (a local of a frame still on the stack)
+        if not self.safe_generators and r.random() < 0.3:
+            self.w("def deco2(fn):")
+            self.w("    def wrapper2(*args, **kwargs):")
+            self.w("        R.enter(['args', 'kwargs'])")
+            self.w("        _v = fn(*args, **kwargs)")
+            self.w("        R.act('return', _v)")
+            self.w("        return _v")
+            self.w("    R.funcs[(wrapper2.__code__.co_filename, wrapper2.__code__)] = wrapper2")
+            self.w("    R.unresolvable.add((wrapper2.__code__.co_filename, wrapper2.__code__))")
+            self.w("    R.reg(fn)")
+            self.w("    return wrapper2")
+            calls = self.def_plain("plainwrapped", deco="@deco2")
+            self.plain.append(("plainwrapped", calls))
+            self.w("")
         # closure
         if r.random() < 0.6:
             self.w("def outer(a):")
